@@ -71,7 +71,7 @@ Proof.
     apply (p_detachf_ok s a o G S). exact Hg0.
   - (* OSetInner *)
     destruct (kind_is_spec s _ _ Hg1) as (o & x & S & _). rewrite S.
-    exact (p_setinner_ok s m o a G S Hg1 Hg0).
+    exact (p_setinner_ok s m o a G S Hg1 (kind_is_stage_buf _ _ Hg0)).
   - (* ODefer *)
     destruct (kind_is_spec s _ _ Hg1) as (o & x & S & _). rewrite S.
     destruct (p_addref_ok s o d s0 G S (is_none_true _ Hg0) (eqb_bound _ _ Hg2 ltac:(lia))) as (s' & r & E & G' & K').
@@ -96,6 +96,15 @@ Proof.
   - (* XClone *)
     destruct (kind_is_spec s _ _ Hg1) as (o & x & S & _). rewrite S.
     exact (x_clone_ok s o d s0 G S (is_none_true _ Hg0) (eqb_bound _ _ Hg2 ltac:(lia))).
+  - (* ORawModify *)
+    destruct (kind_is_spec s _ _ Hg0) as (o & x & S & _). rewrite S. exact (p_modify_ok s m o G S Hg0).
+  - (* ORawAdvance *)
+    destruct (kind_is_spec s _ _ Hg0) as (o & x & S & _). rewrite S. exact (p_advance_ok s m o G S Hg0).
+  - (* ORawGet *)
+    destruct (kind_is_spec s _ _ Hg0) as (o & x & S & _). rewrite S.
+    exact (p_rawget_ok s m o a G S (eqb_bound _ _ Hg1 ltac:(lia))).
+  - (* ORawCall *)
+    eexists _, _. split; [reflexivity|]. split; [assumption|apply same_kinds_refl].
 Qed.
 
 Lemma Good_clear s : Good s -> Good (clear_log s).
